@@ -269,6 +269,18 @@ pub fn run(args: &Args) {
                         Err(_) => false,
                     };
                     cx.obs(&format!("address.struct{}", cls_suffix), &format!("{}!{}", name, rng_txt), ok, || format!("Address({:?},{:?}) print/parse -> {:?}", name, rng_txt, st));
+                    // an object that held another value before shows only the new one (Range and Address are re-used by callers)
+                    let before = *rng.pick(&["$B$2:$C$3", "B2", "$A:$C", "3:$7", "$XFD$1048576", "A$1:$B2"]);
+                    let re = guard(|| {
+                        let mut r = Range::default();
+                        r.set_range(before);
+                        r.set_range(rng_txt.clone());
+                        let mut a = Address::default();
+                        a.set_address(format!("Other!{}", before));
+                        a.set_address(format!("S!{}", rng_txt));
+                        (r.get_range(), a.get_address())
+                    });
+                    cx.obs("range.struct.reused-object", &format!("{} then {}", before, rng_txt), re == Ok((rng_txt.clone(), format!("S!{}", rng_txt))), || format!("set_range({:?}) then set_range({:?}) -> {:?}", before, rng_txt, re));
                 }
             }
         }
